@@ -18,10 +18,20 @@
 //!     payload that differ from the payload after the previous op (all-zero before the first op).
 //!   "via": "hal" drives the same ops through `create_lcd(LcdKind::Hd61202)` and the `LcdHal` trait object (the
 //!   way the runtime owns its LCD) instead of the inherent methods of a `LcdController` value.
+//!   "via": "machine" drives them through a whole `CoreRuntime` (CPU -> RuntimeBus -> LCD): every write is the
+//!   instruction `MV [abs20],A` (A8 lo mid hi, A preset to the value through the register API), every read is
+//!   `MV A,[abs20]` (88 lo mid hi) and the result is register A afterwards -- the two instructions lib.rs' own tests
+//!   `lcd_mapped_write_counts_as_memory_write` / `lcd_mapped_read_counts_as_memory_read` use.  One `step(1)` per
+//!   access; instructions are laid down at rolling addresses of the RAM at 0xB8000.  "backing": [[addr, "hex"], ...]
+//!   is written into the flat memory image first (what a memory image / snapshot leaves underneath the LCD ports).
+//!   A machine read always yields a byte ("r" is never null): the caller decides which reads the protocol constrains.
+//!   The LCD is observed through `rt.lcd` (export_snapshot / display_buffer), exactly as on the other paths.
 //!   The harness holds no LCD semantics: diffs are an encoding of what the crate returned.
 use sc62015_core::lcd::{
     create_lcd, LcdController, LcdDisplayWrite, LcdHal, LcdKind, LCD_DISPLAY_COLS, LCD_DISPLAY_ROWS,
 };
+use sc62015_core::llama::opcodes::RegName;
+use sc62015_core::{CoreRuntime, TimerContext};
 use serde_json::{json, Value};
 
 #[derive(Default)]
@@ -81,6 +91,97 @@ impl Dev for Box<dyn LcdHal> {
     }
 }
 
+/// The whole machine: accesses are CPU instructions executed by `CoreRuntime::step`.
+struct MachineDev {
+    rt: CoreRuntime,
+    n: u32,
+}
+
+const PROG_BASE: u32 = 0xB8000;
+const PROG_SLOTS: u32 = 0x1800; // 4-byte slots, 24 KiB of the internal RAM
+
+fn unhex(s: &str) -> Vec<u8> {
+    let b = s.as_bytes();
+    let nib = |c: u8| -> u8 {
+        match c {
+            b'0'..=b'9' => c - b'0',
+            b'a'..=b'f' => c - b'a' + 10,
+            b'A'..=b'F' => c - b'A' + 10,
+            _ => 0,
+        }
+    };
+    let mut out = Vec::with_capacity(b.len() / 2);
+    let mut i = 0;
+    while i + 1 < b.len() {
+        out.push((nib(b[i]) << 4) | nib(b[i + 1]));
+        i += 2;
+    }
+    out
+}
+
+impl MachineDev {
+    fn new(h: &Value) -> Self {
+        let mut rt = CoreRuntime::new();
+        // Replace the timer in place (CoreRuntime's IMR/ISR hook holds a raw pointer into this Box): no timer IRQs.
+        *rt.timer = TimerContext::new(false, 0, 0);
+        if let Some(segs) = h.get("backing").and_then(|v| v.as_array()) {
+            for seg in segs {
+                let addr = seg.get(0).and_then(|v| v.as_u64()).unwrap_or(0) as usize;
+                let data = unhex(seg.get(1).and_then(|v| v.as_str()).unwrap_or(""));
+                rt.memory.write_external_slice(addr, &data);
+            }
+        }
+        MachineDev { rt, n: 0 }
+    }
+
+    fn exec(&mut self, opcode: u8, address: u32) {
+        let slot = PROG_BASE + 4 * (self.n % PROG_SLOTS);
+        self.n = self.n.wrapping_add(1);
+        let code = [
+            opcode,
+            (address & 0xFF) as u8,
+            ((address >> 8) & 0xFF) as u8,
+            ((address >> 16) & 0x0F) as u8,
+        ];
+        self.rt.memory.write_external_slice(slot as usize, &code);
+        self.rt.state.set_pc(slot);
+        if let Err(e) = self.rt.step(1) {
+            panic!("CoreRuntime::step failed: {e}");
+        }
+    }
+
+    fn lcd(&self) -> &dyn LcdHal {
+        self.rt.lcd.as_deref().expect("CoreRuntime without an LCD")
+    }
+
+    fn lcd_mut(&mut self) -> &mut dyn LcdHal {
+        self.rt.lcd.as_deref_mut().expect("CoreRuntime without an LCD")
+    }
+}
+
+impl Dev for MachineDev {
+    fn write(&mut self, address: u32, value: u8) {
+        self.rt.state.set_reg(RegName::A, value as u32);
+        self.exec(0xA8, address); // MV [abs20],A
+    }
+    fn read(&mut self, address: u32) -> Option<u8> {
+        self.exec(0x88, address); // MV A,[abs20]
+        Some((self.rt.state.get_reg(RegName::A) & 0xFF) as u8)
+    }
+    fn export_snapshot(&self) -> (Value, Vec<u8>) {
+        self.lcd().export_snapshot()
+    }
+    fn display_buffer(&self) -> Buf {
+        self.lcd().display_buffer()
+    }
+    fn begin_display_write_capture(&mut self) {
+        self.lcd_mut().begin_display_write_capture()
+    }
+    fn take_display_write_capture(&mut self) -> Vec<LcdDisplayWrite> {
+        self.lcd_mut().take_display_write_capture()
+    }
+}
+
 fn snap<D: Dev>(lcd: &D, prev: &mut Vec<u8>) -> (Value, Value) {
     let (meta, payload) = lcd.export_snapshot();
     let mut regs: Vec<Value> = Vec::with_capacity(8);
@@ -114,8 +215,12 @@ fn snap<D: Dev>(lcd: &D, prev: &mut Vec<u8>) -> (Value, Value) {
 }
 
 fn run_history(h: &Value, out: &mut Vec<Value>) {
-    if h.get("via").and_then(|v| v.as_str()) == Some("hal") {
+    let via = h.get("via").and_then(|v| v.as_str());
+    if via == Some("hal") {
         let mut lcd: Box<dyn LcdHal> = create_lcd(LcdKind::Hd61202);
+        run_ops(&mut lcd, h, out)
+    } else if via == Some("machine") {
+        let mut lcd = MachineDev::new(h);
         run_ops(&mut lcd, h, out)
     } else {
         let mut lcd = LcdController::new();
